@@ -1,4 +1,4 @@
-NOTE = "trusted base: CPython 3.12 (str, re, json, threading, sys.monitoring), pycountry's ISO 3166-1 data file, rstr, and the reference models in vf/ref (written independently of the library; registry data re-read from the tree on every run). The verdict is about the executions produced (held on K observed cases), never 'verified'."
+NOTE = "trusted base: CPython 3.12 (str, re, json, threading, sys.monitoring), pycountry's ISO 3166-1 data file, rstr, and the reference models in vf/ref (written independently of the library; registry data re-read from the tree on every run). The verdict is about the executions produced (held on K observed cases), never 'verified'. Every check (except C13-C15, which are process-state sensitive by design) also repeats one of its shards under four threads, under -W error, and under python -OO in the C locale; every second shard runs after a prelude that uses the library's other entry points (DESIGN.md 9.1)."
 
 
 def c(technique, text, ref, note=NOTE):
@@ -14,9 +14,9 @@ CHECKS = {
     "C03": c(RM + "relational oracle over exhaustively enumerated single-character mutants of reference-valid IBANs",
              "for each base IBAN of every country all same-kind substitutions at positions >= 2 and all adjacent same-kind transpositions are executed; any accepted mutant is a violation", "DESIGN.md §5 C03"),
     "C04": c(RM + "boundary recorder + independent ISO 9362 reference oracle over seeded hostile workloads, both compliance modes",
-             "registry BICs, all 676 country pairs, position x wide-alphabet sweeps, lengths 0..14, decoration, hostile Unicode and edit fuzz judged against R-BIC through constructor, validate() and is_valid", "DESIGN.md §5 C04"),
+             "registry BICs, all 676 country pairs, position x wide-alphabet sweeps, lengths 0..14, decoration, hostile Unicode and edit fuzz judged against R-BIC through constructor, validate() and is_valid, as plain text, wrapped objects, user subclasses and positional / truthy-flag call forms; one stress shard validates shared objects from six threads under alternating modes", "DESIGN.md §5 C04, §9.5"),
     "C05": c(RM + "totality monitor (only library exceptions may escape) + defect-set oracle for the raised class + entry-point agreement monitor",
-             "multi-defect and non-ASCII IBAN/BIC texts with every flag combination; the raised class must lie in the set allowed by the defects the reference finds present; is_valid never raises; constructor <=> validate <=> is_valid", "DESIGN.md §5 C05"),
+             "multi-defect and non-ASCII IBAN/BIC texts with every flag combination; the raised class must lie in the set allowed by the defects the reference finds present; is_valid never raises; constructor <=> validate <=> is_valid; cold-start thread shards; a custom-country shard (pycountry add_entry after first use)", "DESIGN.md §5 C05, §9.5"),
     "C06": c(RM + "boundary recorder at three entry points + independent national-algorithm reference (R-NAT) with reference-forced valid inputs",
              "22 national algorithms judged on structure-conforming BBANs (half forced valid by the reference, twins differing only in the check field, library draws); other countries must be unaffected by the flag; success is True, failure raises", "DESIGN.md §5 C06"),
     "C07": c(RM + "boundary recorder + independent Bundesbank-method reference (R-DE), direct and through the public API for every German bank code",
@@ -34,14 +34,14 @@ CHECKS = {
     "C13": c(RM + "boundary recorder + R-IBAN validity + pin monitor + cross-process digest comparison under several PYTHONHASHSEED values",
              "every country x seeds x registry modes x pinned subsets; in-process and cross-process reproducibility; listed-bank monitor", "DESIGN.md §5 C13"),
     "C14": c(RM + "deterministic thread scheduler on sys.monitoring (all single preemption points at line and instruction granularity), stress threads with 1us switch interval, cold-start runs; oracle = solo outcome",
-             "pairs of calls routed to the same shared object with different solo behaviour (classes forced by the reference) explored under every single preemption point; stress and cold-start runs compare every outcome with the solo outcome", "DESIGN.md §5 C14"),
+             "pairs of calls routed to the same shared object with different solo behaviour (classes forced by the reference) explored under every single preemption point; stress and cold-start runs compare every outcome with the solo outcome; first-use trials preempt the first caller of every algorithm family at its K-th step inside the checksum modules in fresh processes; one object shared by both callers; a second thread after handled failing calls", "DESIGN.md §5 C14, §9.5"),
     "C15": c(RM + "history differ over fresh-interpreter histories + registry write barrier (dict/list subclasses) + SHA-256 fingerprints + write-open audit hook + object re-read",
-             "a pool of call descriptors built around collision families executed in canonical, reverse, permuted and pairwise histories and as first call of a fresh process; one outcome per descriptor required; no registry mutation event, fingerprint change or write-open", "DESIGN.md §5 C15"),
+             "a pool of call descriptors built around collision families executed in canonical, reverse, permuted and pairwise histories and as first call of a fresh process; one outcome per descriptor required; no registry mutation event, fingerprint change or write-open; kept objects are handed back to the constructors and re-read at the end", "DESIGN.md §5 C15, §9.5"),
     "C16": c(RM + "relational monitor: every operator on every ordered pair of a pool vs the same operator on the compact strings; copy/deepcopy/pickle state comparison",
-             "pool of valid/unvalidated IBANs, BICs, BBANs (equal values under different countries) and plain strings", "DESIGN.md §5 C16"),
+             "pool of valid/unvalidated IBANs, BICs, BBANs (equal values under different countries, user subclasses, very long and empty unvalidated objects) and plain strings; attributes read before copying; pickles crossing processes with different hash seeds", "DESIGN.md §5 C16, §9.5"),
     "C17": c(RM + "exhaustive enumeration of the tree's country and bank entries with structural invariants and a reachability monitor through the real library",
-             "all country entries and all bank entries: length arithmetic, position bounds/overlap, algorithm field reads, BIC validity, bank-code class fit; IBAN built around every entry must be accepted and find the entry", "DESIGN.md §5 C17"),
+             "all country entries and all bank entries: length arithmetic, IBAN structure string = two letters + 2!n + BBAN structure, position bounds/overlap, algorithm field reads, BIC validity, bank-code class fit; IBAN built around every entry must be accepted and find the entry", "DESIGN.md §5 C17"),
     "C18": c(RM + "reference-model comparison of merge_dicts on generated nested dicts; scenario harness (scratch package copies with overlay files) comparing effective tables with R-DATA and re-running C01/C08/C12 monitors on the scratch data",
-             "seeded + hypothesis nested dict pairs; scenarios with new countries, partial nested overrides, scalar<->dict conflicts, name-order fights between files, v2 bank files, bank files before/between/after the bundled ones", "DESIGN.md §5 C18"),
+             "seeded + hypothesis nested dict pairs; scenarios with new countries, partial nested overrides, scalar<->dict conflicts, name-order fights between files, v2 bank files (incl. codes that look like patterns), bank files before/between/after the bundled ones, dot files, prefix siblings, a retried import after a repaired file", "DESIGN.md §5 C18, §9.5"),
 }
 NOT_APPLICABLE = {}
